@@ -695,6 +695,36 @@ def h_esc(i: int) -> bool:
     return got is True
 
 
+def h_numesc(v: int, form: int) -> bool:
+    """
+    pre: P["range"][0] <= v < P["range"][1] and 0 <= form < 4
+    post: _
+    """
+    val = fm = None
+    for k in range(P["range"][0], P["range"][1]):
+        if v == k:
+            val = k
+    for k in range(4):
+        if form == k:
+            fm = k
+    STATS["compared"] += 1
+    if P.get("_twin"):
+        return False
+    body = chr(92) + [("%o" % val), ("%03o" % val), ("x%x" % val), ("x%02X" % val)][fm]
+    exp = ref_expr.charconst(body).v  # ISO C with gcc's signed plain char
+    text = "'%s' == %s" % (body, "(%d)" % exp) + " && '" + body + "' + 1 == " + "(%d)" % (exp + 1)
+    try:
+        with _real_numpy():
+            got = _cbi_truth(text)
+    except Exception as e:
+        if P.get("_replay"):
+            LAST.update(text=text, observed="exception " + repr(e))
+        return False
+    if P.get("_replay"):
+        LAST.update(text=text, observed=got, expected=True)
+    return got is True
+
+
 DEF_EXPRS = [
     "defined A", "defined(A)", "defined ( B )", "!defined A && defined(B)", "defined A || defined B", "A", "A == 0", "B + 1 == 2",
     "A > B", "defined(A) + defined(B) == 2", "true", "false || A", "UNKNOWN", "!UNKNOWN", "(A) && !defined(UNKNOWN)",
@@ -854,6 +884,10 @@ def _lit_obligations(tier, regions):
     else:
         obs.append(Ob(id="lit/char-escapes", kind="ch", module=__name__, func="h_esc", params=dict(family="esc"),
                       timeout=60, group="lit"))
+        # octal and hexadecimal escapes: every value 0..255 in four spellings
+        for lo in range(0, 256, 32):
+            obs.append(Ob(id="lit/char-numeric-escapes/%d" % lo, kind="ch", module=__name__, func="h_numesc",
+                          params=dict(family="esc", range=[lo, lo + 32]), timeout=120, group="lit"))
     for i in range(len(DEF_EXPRS)):
         obs.append(Ob(id="def/%02d" % i, kind="ch", module=__name__, func="h_def", params=dict(family="def", expr=i),
                       timeout=120, group="def"))
